@@ -3262,8 +3262,14 @@ class ISLaEmitter(IslaLanguageListener.IslaLanguageListener):
         assert nonterminal[-1] == ">"
         assert len(nonterminal) > 2
 
+        # The name must differ from the names of the other variables introduced for free
+        # nonterminals and from the name of the constant (`start`, unless declared
+        # otherwise), which need not be mentioned in the constraint: a variable named
+        # `start` for a free `<start>` would capture the constant.
         fresh_var = fresh_bound_variable(
-            self.used_variables | self.vars_for_free_nonterminals,
+            self.used_variables
+            | {var.name for var in self.vars_for_free_nonterminals.values()}
+            | {self.constant.name},
             BoundVariable(nonterminal[1:-1], nonterminal),
             add=False,
         )
